@@ -91,7 +91,7 @@ Section Hoist.
         * (* moved to the parent *)
           set (Pn := set_fund Pc (fund Pc ++ [UPend x])).
           assert (Kn : frame_ok Pn prP rest).
-          { destruct K as [K1 K2 K3 K4 K5 K6 K7 K8]. constructor; try assumption.
+          { destruct K as [K1 K2 K3 K4 K5 K6 K7 K8 K9]. constructor; try assumption.
             - intros y Hy. cbn [fund Pn set_fund] in Hy. apply in_app_last in Hy. destruct Hy as [Hy|Hy]; [apply K3; exact Hy|].
               inversion Hy; subst. apply a_find_decl_none. exact Ed.
             - intros y fs Hy. cbn [fund Pn set_fund] in Hy. apply in_app_last in Hy. destruct Hy as [Hy|Hy]; [|discriminate]. exact (K4 y fs Hy).
